@@ -14,6 +14,8 @@ THEOREMS = [
     "PyTrie.Props.C04.batch_commit_append_only",
     "PyTrie.Props.C04.old_root_still_readable",
     "PyTrie.Props.C04.lookup_eq_get?",
+    "PyTrie.Props.C04.op_keeps_complete",
+    "PyTrie.Props.C04.complete_survives",
 ]
 RULE = ("interleaved histories of several non-pruning tries over ONE shared database: set/delete on any trie, fresh tries "
         "opened at earlier roots, at_root snapshot reads, squash_changes blocks (normal exit, exception after n operations, n-th "
